@@ -60,6 +60,18 @@ RedStep(red, i, size) == IF i + 1 = size THEN RedIdle ELSE [next |-> i + 1, size
 RedCovers(dirty, size) == \A s \in dirty : s >= 0 /\ s < size
 
 (***************************************************************************)
+(* BEYOND THE NUMERIC CLAUSE ("without ... crashes or deadlock"): guards    *)
+(* against callers that are themselves inside a parallel region.           *)
+(* BackProjectorByBin::start_accumulating_in_new_target / get_output must  *)
+(* only run outside parallel regions ("cannot be called inside a thread"): *)
+(* in a team of more than one thread EVERY such call is refused with an    *)
+(* error (and touches nothing); in a team of one none is.                  *)
+(***************************************************************************)
+GuardOK(team, calls, refused, accepted) ==
+  /\ refused + accepted = calls
+  /\ IF team > 1 THEN accepted = 0 ELSE refused = 0
+
+(***************************************************************************)
 (* Numeric outputs are compared with the 1-thread run of the same calls in *)
 (* fixed point: "up to floating-point reassociation of the per-thread      *)
 (* partial sums".  RelTol = 2^-14 of the largest magnitude of the          *)
